@@ -1206,6 +1206,20 @@ class RawAlgorithmsMixIn:
 
         (xbar_data, ybar_data) = out
 
+        if x_data.ndim == 3 or y_data.ndim == 3:
+            # one-dimensional operands: treat x as a row and y as a column
+            # matrix and use the matrix-matrix formula on reshaped copies
+            D,P = x_data.shape[:2]
+            x2_data = x_data.reshape((D,P,1,-1)) if x_data.ndim == 3 else x_data
+            y2_data = y_data.reshape((D,P,-1,1)) if y_data.ndim == 3 else y_data
+            zbar2_data = zbar_data.reshape((D,P) + x2_data.shape[2:-1] + y2_data.shape[3:])
+            xbar2_data = numpy.zeros(x2_data.shape, dtype=xbar_data.dtype)
+            ybar2_data = numpy.zeros(y2_data.shape, dtype=ybar_data.dtype)
+            cls._dot_pullback(zbar2_data, x2_data, y2_data, z_data, out = (xbar2_data, ybar2_data))
+            xbar_data += xbar2_data.reshape(xbar_data.shape)
+            ybar_data += ybar2_data.reshape(ybar_data.shape)
+            return out
+
         xbar_data += cls._dot(zbar_data, cls._transpose(y_data), out = xbar_data.copy())
         ybar_data += cls._dot(cls._transpose(x_data), zbar_data, out = ybar_data.copy())
 
